@@ -252,8 +252,8 @@ func runC02(r *ev.Run) {
 			}
 			// SQLite's own order (rowid first in its dump)
 			if want != nil {
-				if td := want.Tables[strings.ToLower(u.table.Name)]; td != nil {
-					if lrows, ok := td.Idx[strings.ToLower(u.name)]; ok && td.IdxOrdered[strings.ToLower(u.name)] {
+				if td := want.Tables[FoldID(u.table.Name)]; td != nil {
+					if lrows, ok := td.Idx[FoldID(u.name)]; ok && td.IdxOrdered[FoldID(u.name)] {
 						lcols := append([]string{}, u.table.ColNames...)
 						if !u.table.WithoutRowid {
 							lcols = append([]string{"rowid"}, lcols...)
